@@ -354,8 +354,47 @@ def partial_sites(fn: Fn) -> list[tuple[str, str, str]]:
     enclosing `if`/`while`/conditional expression/`and` chain/comprehension condition, or in the test
     of an earlier `if` of an enclosing block whose body leaves (`raise`/`return`/`continue`/`break`),
     or — for `next` — when it sits in a `try` that handles StopIteration. `s.split(..)[i]` and friends
-    are total for i in {0, -1}. -> (kind, function, source text)"""
+    are total for i in {0, -1}, also through a local that is only ever assigned such a call or a
+    non-empty list literal and never shrunk. -> (kind, function, source text)"""
     out = []
+
+    # local names that only ever hold a non-empty sequence: `x = s.split(..)`, `x = [a, …]`
+    assigned: dict[str, list] = {}
+    for n in ast.walk(fn.node):
+        if isinstance(n, ast.Assign):
+            for t in n.targets:
+                if isinstance(t, ast.Subscript) and not isinstance(t.slice, ast.Slice):
+                    continue  # `x[i] = v` keeps the length
+                for y in ast.walk(t):
+                    if isinstance(y, ast.Name):
+                        assigned.setdefault(y.id, []).append(n.value if t is y else None)
+        elif isinstance(n, (ast.AnnAssign, ast.AugAssign, ast.NamedExpr)) and isinstance(n.target, ast.Name):
+            assigned.setdefault(n.target.id, []).append(n.value if isinstance(n, ast.AnnAssign) else None)
+        elif isinstance(n, (ast.For, ast.comprehension)):
+            for y in ast.walk(n.target):
+                if isinstance(y, ast.Name):
+                    assigned.setdefault(y.id, []).append(None)
+    params = {a.arg for a in fn.node.args.posonlyargs + fn.node.args.args + fn.node.args.kwonlyargs}
+
+    def nonempty_value(v) -> bool:
+        if isinstance(v, (ast.List, ast.Tuple)) and v.elts and not any(isinstance(e, ast.Starred) for e in v.elts):
+            return True
+        return (isinstance(v, ast.Call) and isinstance(v.func, ast.Attribute) and v.func.attr in SAFE_SEQ_CALLS)
+
+    nonempty_names = {
+        name for name, vals in assigned.items()
+        if name not in params and vals and all(v is not None and nonempty_value(v) for v in vals)
+    }
+    # shrinking mutations (`x.pop()`, `del x[i]`, `x.clear()`, `x.remove(..)`) void the guarantee
+    for n in ast.walk(fn.node):
+        if isinstance(n, ast.Call) and isinstance(n.func, ast.Attribute) and isinstance(n.func.value, ast.Name) \
+                and n.func.attr in ("pop", "clear", "remove"):
+            nonempty_names.discard(n.func.value.id)
+        if isinstance(n, ast.Delete):
+            for t in n.targets:
+                for y in ast.walk(t):
+                    if isinstance(y, ast.Name):
+                        nonempty_names.discard(y.id)
 
     def mentions(test, target: str) -> bool:
         return target in ast.unparse(test)
@@ -369,8 +408,10 @@ def partial_sites(fn: Fn) -> list[tuple[str, str, str]]:
                 idx = ast.Constant(value=-idx.operand.value)
             if isinstance(idx, ast.Constant) and isinstance(idx.value, int):
                 base = n.value
-                safe = (isinstance(base, ast.Call) and isinstance(base.func, ast.Attribute)
-                        and base.func.attr in SAFE_SEQ_CALLS and idx.value in (0, -1))
+                safe = idx.value in (0, -1) and (
+                    (isinstance(base, ast.Call) and isinstance(base.func, ast.Attribute)
+                     and base.func.attr in SAFE_SEQ_CALLS)
+                    or (isinstance(base, ast.Name) and base.id in nonempty_names))
                 target = ast.unparse(base)
                 if not safe and not any(mentions(g, target) for g in guards):
                     out.append(("index", fn.fid, ast.unparse(n)))
